@@ -559,6 +559,7 @@ def r5_pkg_protocol(ctx, floor=21):
               'the package phase of a package function is not run (next() on the generator) during process_datapackage')
     # self.dp.it = res_iter precedes `yield from self.dp_processor`
     order_ok = False
+    from rules.stream import once_bound as _so5
     param = pr.params[1] if len(pr.params) > 1 else None
     for p in Enumerator(where=pr.qualname).paths(pr.node.body):
         seen_bind = False
@@ -566,7 +567,7 @@ def r5_pkg_protocol(ctx, floor=21):
             if isinstance(n, ast.Assign) and any(isinstance(t, ast.Attribute) and t.attr == 'it' for t in n.targets) \
                     and isinstance(n.value, ast.Name) and n.value.id == param:
                 seen_bind = True
-            if isinstance(n, ast.YieldFrom) and pseudo(n.value) == 'self.dp_processor':
+            if isinstance(n, ast.YieldFrom) and pseudo(_so5(pr.node, n.value)) == 'self.dp_processor':     # (or a local bound once to it)
                 order_ok = seen_bind
     run.check(order_ok, 'R5', pr.where, pr.qualname, 'self.dp.it = res_iter; yield from self.dp_processor',
               'the upstream streams are not bound to the package wrapper before the package function resumes')
